@@ -424,7 +424,11 @@ func (fg *FunctionGenerator) GenerateCustom(ast parser2.AST, gc funcGen.Generato
 		}
 		l := tc.GetLine()
 		return func(st funcGen.Stack[Value], cs []Value) (Value, error) {
-			tryVal, tryErr := tryFunc(st, cs)
+			// a panic raised while evaluating the try expression is handled like an error
+			tryVal, tryErr := func() (v Value, err error) {
+				defer recoverToError(&err)
+				return tryFunc(st, cs)
+			}()
 			if tryErr == nil {
 				return tryVal, nil
 			}
